@@ -353,3 +353,140 @@ def origins(f, d, depth=0, seen=None):
     if k == 'cond':
         return origins(f, d['t'], depth + 1, seen) + origins(f, d['f'], depth + 1, seen)
     return [d]
+
+
+# ---- loops ----------------------------------------------------------------------------------------
+
+def _plain_field(d, field=None):
+    """descriptor is exactly a (possibly nested-base) member `field`, no arithmetic."""
+    d = strip(d)
+    return isinstance(d, dict) and d.get('k') == 'mem' and (field is None or d['n'] == field)
+
+
+def _resolve_local(f, d, depth=0):
+    """Replace a single-definition local by its initialiser (repeatedly)."""
+    d = strip(d)
+    while depth < 6 and isinstance(d, dict) and d.get('k') == 'var' and d.get('vk') == 'local':
+        init = f.single_def(d['n'])
+        if init is None:
+            break
+        d = strip(init)
+        depth += 1
+    return d
+
+
+def loops_over(f, field):
+    """Loops of f that iterate over container member `field` (range-for, iterator loop, index
+    loop).  Each: {'header': block, 'body': block, 'exit': block, 'full': bool, 'style': str,
+    'var': loop variable, 'bound': str, 'line': int}.  full = the iteration space is exactly
+    [begin(), end()) / [0, size()) of the member, without offsets."""
+    out = []
+    for bid, b in f.blocks.items():
+        t = b.get('term')
+        if not t or t['kind'] not in ('for', 'while', 'range', 'do') or len(b['succ']) != 2:
+            continue
+        c = f.eff_cond(bid)
+        c0 = strip(c)
+        if not isinstance(c0, dict):
+            continue
+        l = r = None
+        op = None
+        if c0.get('k') == 'call' and c0.get('op') in ('!=', '<') or \
+                (c0.get('k') == 'call' and basename(c0.get('name') or '').startswith('operator!=')):
+            args = ([c0['recv']] if 'recv' in c0 else []) + c0.get('args', [])
+            if len(args) == 2:
+                l, r = args
+                op = '!='
+        elif c0.get('k') == 'bin' and c0['op'] in ('!=', '<', '<='):
+            l, r, op = c0['l'], c0['r'], c0['op']
+        if l is None:
+            continue
+        lv = strip(l)
+        if not (isinstance(lv, dict) and lv.get('k') == 'var'):
+            continue
+        var = lv['n']
+        # definitions of the loop variable (initial value)
+        inits = [e.get('init') for e in f.events('decl') if e['n'] == var and e.get('init') is not None]
+        init = strip(inits[0]) if inits else None
+        rr = _resolve_local(f, r)
+        info = {'header': bid, 'body': b['succ'][0], 'exit': b['succ'][1], 'var': var,
+                'line': t.get('line'), 'style': None, 'full': False, 'bound': dstr(rr)}
+        # iterator styles
+        if isinstance(rr, dict) and rr.get('k') == 'call' and \
+                basename(rr.get('name') or '') in ('end', 'cend'):
+            cont = _resolve_local(f, rr.get('recv'))
+            if isinstance(cont, dict) and cont.get('k') == 'mem' and cont['n'] == field:
+                info['style'] = 'range' if t['kind'] == 'range' else 'iterator'
+                ok_init = isinstance(init, dict) and init.get('k') == 'call' and \
+                    basename(init.get('name') or '') in ('begin', 'cbegin') and \
+                    _plain_field(_resolve_local(f, init.get('recv')), field)
+                info['full'] = bool(ok_init)
+                out.append(info)
+                continue
+        # iterator with arithmetic on the bound: `end() - k`
+        if any(x.get('k') == 'call' and basename(x.get('name') or '') in ('end', 'begin') and
+               _plain_field(_resolve_local(f, x.get('recv')), field) for x in walk(rr)) or \
+                (init is not None and any(
+                    x.get('k') == 'call' and basename(x.get('name') or '') in ('end', 'begin') and
+                    _plain_field(_resolve_local(f, x.get('recv')), field) for x in walk(init))):
+            info['style'] = 'iterator-offset'
+            info['full'] = False
+            out.append(info)
+            continue
+        # index style: body subscripts field with the loop variable
+        uses = False
+        for e in f.events('call'):
+            if e.get('op') == '[]' and _plain_field(e.get('recv'), field) and \
+                    any(mentions_var(a, var) for a in e.get('args', [])):
+                uses = True
+        if uses:
+            info['style'] = 'index'
+            full = isinstance(rr, dict) and rr.get('k') == 'call' and \
+                basename(rr.get('name') or '') == 'size' and _plain_field(rr.get('recv'), field) \
+                and op in ('<', '!=') and init is not None and const_value(init) == 0
+            info['full'] = bool(full)
+            out.append(info)
+    return out
+
+
+def full_range(ctx, rid, f, field, what, construct=None, need=1):
+    """The function iterates over `field` and every such loop covers the full range."""
+    ls = loops_over(f, field)
+    if len(ls) < need:
+        ctx.violation(rid, f.name, construct or ('no-loop-over:%s' % field), f.loc,
+                      '%s — %s no longer iterates over %s' % (what, f.name, field))
+        return False
+    ok = True
+    for l in ls:
+        ok &= ctx.check(rid, l['full'], f.name, construct or ('partial-loop-over:%s' % field),
+                        'src/%s:%s' % (f.file, l['line']),
+                        '%s — %s loop over %s in %s covers the whole container (bound: %s)' % (
+                            what, l['style'], field, f.name, l['bound']))
+    return ok
+
+
+def every_iteration_passes(ctx, rid, f, loop, is_through, what, construct):
+    """On every path through one iteration of `loop` (from the body entry back to the header or
+    out of the loop) an event satisfying is_through is executed; paths ending in a return are
+    exempt (failure exits)."""
+    hdr = loop['header']
+
+    def tgt(x):
+        return False
+    # search from body entry to the header block (back edge): model by edge_ok stopping there
+    hit = [None]
+
+    def edge_ok(b, i, s):
+        if s == hdr:
+            hit[0] = b
+            return False
+        return True
+    # we need paths that reach the back edge without is_through: run search with blocker and
+    # observe whether the back edge was seen
+    f.find_path(None, tgt, is_blocker=lambda x: is_through(x) or x['k'] == 'ret',
+                from_succ=loop['body'], edge_ok=edge_ok)
+    ok = hit[0] is None
+    ctx.check(rid, ok, f.name, construct, 'src/%s:%s' % (f.file, loop['line']),
+              '%s — every iteration of the loop over %s in %s' % (what, loop.get('bound'), f.name),
+              witness=None if ok else {'back_edge_from_block': hit[0]})
+    return ok
